@@ -356,4 +356,10 @@ def main(argv):
 
 
 if __name__ == "__main__":
-    sys.exit(main(sys.argv[1:]))
+    try:
+        rc = main(sys.argv[1:])
+    except Exception:     # a crash of the harness itself is never a verdict about the subject
+        traceback.print_exc()
+        print("INCONCLUSIVE property=%s reason=harness crashed (traceback above)" % (sys.argv[1] if len(sys.argv) > 1 else "?"))
+        rc = 2
+    sys.exit(rc)
